@@ -834,8 +834,8 @@ func init() {
 					rs = append(rs, HRun{Pkg: "./shovel/config", Fn: "ZZ_C16_Missing", Params: []int{a, w}})
 				}
 				if a == 0 {
-					// a later one of several selected inputs / block fields lacks its column
-					for w := 3; w <= 5; w++ {
+					// a later one of several selected inputs / block fields lacks its column (3-5); an identity field declared under a column name the table lacks (6-11)
+					for w := 3; w <= 11; w++ {
 						rs = append(rs, HRun{Pkg: "./shovel/config", Fn: "ZZ_C16_Missing", Params: []int{0, w}})
 					}
 				}
@@ -866,6 +866,10 @@ func init() {
 						rs = append(rs, HRun{Pkg: "./shovel", Fn: "ZZ_C15_Inject", Params: []int{pos, path, 1}})
 					}
 				}
+			}
+			// the hostile string sits in the SECOND of two integrations sharing one table
+			for _, pos := range []int{2, 3, 11, 12, 19} {
+				rs = append(rs, HRun{Pkg: "./shovel", Fn: "ZZ_C15_Inject", Params: []int{pos, 0, 2}, Label: "shared-table"})
 			}
 			rs = append(rs, HRun{Pkg: "./shovel", Fn: "ZZ_C15_Chain"})
 			// the dashboard's /save-source: a source name that fails the check is not stored
